@@ -3,14 +3,14 @@
 # property it breaks (and optionally others). /repo itself is never touched.
 # usage: seed_matrix.sh [tier] [names...]
 TIER="${1:-quick}"; shift
-cd /verif
+cd "${VERIF_HOME:-/verif}"
 NAMES="$@"; [ -z "$NAMES" ] && NAMES=$(ls seeded | grep -v MATRIX)
-WT=/tmp/wt/matrix
+WT=/tmp/wt/matrix.$$
 for n in $NAMES; do
-  prop=$(python3 -c "import json;print(json.load(open('/verif/seeded/$n/meta.json'))['breaks_property'])")
+  prop=$(python3 -c "import json;print(json.load(open('${VERIF_HOME:-/verif}/seeded/$n/meta.json'))['breaks_property'])")
   git -C /repo worktree remove --force $WT >/dev/null 2>&1
   git -C /repo worktree add --detach $WT HEAD >/dev/null 2>&1
-  if ! git -C $WT apply /verif/seeded/$n/patch.diff 2>/dev/null; then echo "$n $prop PATCH-DOES-NOT-APPLY"; continue; fi
+  if ! git -C $WT apply ${VERIF_HOME:-/verif}/seeded/$n/patch.diff 2>/dev/null; then echo "$n $prop PATCH-DOES-NOT-APPLY"; continue; fi
   VERIF_EVIDENCE_DIR=/tmp/wt/matrix-evidence VERIF_REPO=$WT ./verif check $prop --tier $TIER > /tmp/wt/matrix.$n.log 2>&1; rc=$?
   nv=$(grep -c '^VIOLATION' /tmp/wt/matrix.$n.log)
   first=$(grep -m1 '^VIOLATION' /tmp/wt/matrix.$n.log | sed 's/.*replay=.*replays\///' | cut -c1-90)
